@@ -50,7 +50,7 @@ type c18ConnSched struct {
 	Locked bool     `json:"locked"`
 	Labels []string `json:"labels"`
 	Torn   bool     `json:"torn"`
-	Hb     bool     `json:"hb,omitempty"` // writer 1 is the heartbeat goroutine (first tick after 4 s) instead of the handler
+	Hb     bool     `json:"hb,omitempty"`   // writer 1 is the heartbeat goroutine (first tick after 4 s) instead of the handler
 	Pong   bool     `json:"pong,omitempty"` // writer 1 is wsutil's reply to a client ping, written while the handler reads
 }
 
